@@ -3,7 +3,7 @@
 (* `complete` waiting for its leaf, no unbounded CAS retry), and TerminalJoined then gives "join does complete". *)
 EXTENDS ScopeV2, Json, IOUtils
 T == {1, 2, 3}
-W == 1..4
+W == 1..6
 J == {1, 2}
 ScnSeq == JsonDeserialize(IOEnv.SCENARIOS)
 Scn == {ScnSeq[i] : i \in 1..Len(ScnSeq)}
